@@ -90,8 +90,8 @@ def plan_for(prop, tier):
                 "validity of every stored image is known by construction (marker zones whose abbreviation and offset encode the path they were stored at; bad magic; leap-second record; truncated; empty; v1-only; a shipped zone), never by asking cctz",
                 "Android/Fuchsia fall-back paths are absent from every world; names beginning with 'libc:' are not generated (internal test-only interface)",
                 "under injected faults the oracle is relaxed to: model outcome or a clean failure (false, UTC) - never success with wrong data or a wrong name"],
-            rule="part cross: the full product TZDIR(6: unset, empty, valid, nonexistent, trailing slash, relative) x TZ(14: unset, empty, X, :X, ::X, localtime, :localtime, ':', invalid, absolute, fixed-offset, UTC, file:X, :TruncNL) x LOCALTIME(5) "
-                 "x 45 names (relative, nested, absolute, file:-prefixed, empty, ':'-prefixed, UTC/UTC0/fixed and near misses, directory, unreadable, truncated (in the data, in the footer, closing newline missing), leap-second, bad magic, empty file, v1-only, real zone, trailing slash, ./, localtime), "
+            rule="part cross: the full product TZDIR(6: unset, empty, valid, nonexistent, trailing slash, relative) x TZ(19: unset, empty, X, :X, ::X, localtime, :localtime, ':', invalid, absolute, fixed-offset, UTC, file:X, :TruncNL, and five values that merely resemble 'localtime') x LOCALTIME(5) "
+                 "x 60 names (relative, nested, absolute, file:-prefixed, empty, ':'-prefixed, UTC/UTC0/fixed and near misses, directory, unreadable, truncated (in the data, in the footer, closing newline missing), leap-second, bad magic, empty file, v1-only, real zone, trailing slash, ./ and ../ components, leading/trailing blanks, non-ASCII, 300-character names, POSIX-TZ look-alikes, case variants, localtime), "
                  "each world asking load(name), local_time_zone() and a default-constructed zone, then replayed with a different read chunk size; part random: random worlds of 1-6 ops; part faulted: random worlds with fopen errno faults by open index, "
                  "cookie read errors (EIO/EINTR, persistent or transient) by byte offset, failing seeks, FIFOs and chunk sizes 1..65536. Every world is non-trivial (it resolves at least one name); distinct = distinct (environment, ops, faults, chunk) hashes",
             stages=[
@@ -392,9 +392,11 @@ def report_violation(prop, tier, seed, cls, vs, say):
             json.dump(rep, f, indent=1)
         return dict(path=path, cls=cls, site=v.get("site", ""))
     classes, raw = R.evaluate_case(variant, case, timeout=300)
-    if cls not in classes and cls.startswith("c12:nondeterminism"):
-        # An outcome that depends on leftover heap contents depends on what the process did before: reproduce it
-        # the way it was found, by re-executing the worker block up to this run in a fresh process (twice).
+    if cls not in classes and not v.get("no_case") and v.get("stage") and "enumerat" not in str(v.get("stage")) and case.get("mode") != "cold":
+        # The run does not fail when executed alone in a fresh process, so it depends on something an earlier run of
+        # its worker left behind in the *library* (leftover heap contents, a static the cache reset does not reach).
+        # Reproduce it the way it was found: re-execute the worker block up to this run in a fresh process, twice,
+        # with identical results - a worker is a pure function of the seed and the run indices.
         return report_block(prop, tier, seed, cls, v, case)
     if cls not in classes:
         return dict(machinery="fresh-process replay of run %s did not reproduce %s (got %s)" % (v["run"], cls, classes))
@@ -477,7 +479,7 @@ def report_block(prop, tier, seed, cls, v, case):
     path = os.path.join(VERIF, "replays", "%s-%s-%d-%s.json" % (prop, _slug(cls), seed, run))
     rep = dict(format=1, property=prop, build=("gzero" if differential else v["variant"]), differential_with=("gpat" if differential else None), origin_seed=seed, tier=tier,
                stage=v.get("stage"), run_index=run, **{"class": cls}, site=v.get("site", ""), detail=v.get("detail", ""), case=case,
-               block_replay=dict(part=part, start=start, run=run, note="the outcome depends on leftover heap contents, i.e. on what the process executed before this run; "
+               block_replay=dict(part=part, start=start, run=run, note="the outcome depends on what the process executed before this run (leftover heap contents, or library state that survives the cache reset); "
                                  "replay re-executes the worker from `start` to `run` in a fresh process, which is a pure function of the seed and the indices"),
                minimisation=dict(reexecutions=0, note="not minimised: the case only fails in the context of its block"))
     with open(path, "w") as f:
